@@ -6,3 +6,9 @@ _private = 1
 
 def thing(k):
     return lena.beta.util.double(k), _private
+
+try:
+    text_type = unicode                     # the Python-2 idiom: fine, the handler catches the NameError
+except NameError:
+    text_type = str
+mod_alias = lena.beta.util                  # a module-level alias of a module
